@@ -472,14 +472,16 @@ static const char* _jbl_parse_value(
         }
         char *pe;
         node->vi64 = strtoll(p, &pe, 0);
-        if ((pe == p) || (errno == ERANGE)) {
+        bool big = (pe != p) && (errno == ERANGE); // digits beyond int64: the number is read as a double
+        if (pe == p) {
           if (*p != '.' && !((*p == '-' || *p == '+') && *(p + 1) == '.')) {
             ctx->rc = JBL_ERROR_PARSE_JSON;
             return 0;
           }
         }
-        if ((*pe == '.') || (*pe == 'e') || (*pe == 'E') || (*pe == '-') || (*pe == '+')) {
+        if (big || (*pe == '.') || (*pe == 'e') || (*pe == 'E') || (*pe == '-') || (*pe == '+')) {
           node->type = JBV_F64;
+          errno = 0;
           node->vf64 = iwstrtod(p, &pe);
           if ((pe == p) || (errno == ERANGE)) {
             ctx->rc = JBL_ERROR_PARSE_JSON;
